@@ -150,3 +150,28 @@ Fixpoint unit_row (k n : nat) (c : R) : list R :=
   | O => []
   | S n' => match k with O => c :: repeat 0 n' | S k' => 0 :: unit_row k' n' c end
   end.
+
+(* ---- additions of the C07 hunt-fix round ---- *)
+
+(* Gaussian constraints on TIED names (model.py GaussianConstr after repair patch_2): every constraint
+   (mean, sigma) whose name shares the variable cell theta of a trainable name contributes to that
+   coordinate of the gradient / the diagonal of the Hessian, as it contributes to the value
+   (get_constrain_term loops over all constraints). *)
+Definition gauss_cell (th : R) (ms : list (R * R)) : list (R * R * R) := map (fun c : R * R => (th, fst c, snd c)) ms.
+Definition gauss_cell_grad (th : R) (ms : list (R * R)) : R := rsum (map gauss_grad (gauss_cell th ms)).
+Definition gauss_cell_hess (th : R) (ms : list (R * R)) : R := rsum (map gauss_hess (gauss_cell th ms)).
+
+(* the OLD get_constrain_grad (before patch_2): only a constraint keyed by the trainable name itself
+   (flag true) entered the derivative; the one keyed by a tied non-head name (flag false) was skipped *)
+Definition gauss_cell_grad_old (th : R) (ms : list (bool * (R * R))) : R :=
+  rsum (map (fun c : bool * (R * R) => if fst c then gauss_grad (th, fst (snd c), snd (snd c)) else 0) ms).
+
+(* fit_improve.Cached_FG: a NaN component of the gradient handed to the optimiser is replaced by the
+   central difference of the value, step h = 1e-6 (after repair patch_7);
+   the OLD code evaluated f(x+h) and f(x) and still divided by 2h *)
+Definition fd_central (F : R -> R) (x h : R) : R := (F (x + h) - F (x - h)) / (2 * h).
+Definition fd_old (F : R -> R) (x h : R) : R := (F (x + h) - F x) / (2 * h).
+
+(* Model_cfit.nll after repair patch_5: clip_log like nll_grad_batch (NLL.cfit_call is the OLD code: plain ln) *)
+Definition cfit_call_clip (fb : R) (W e f b V eg g bm : list R) : R :=
+  - rdot (scale_w W) (map clip_log (cfit_probs fb e f b V eg g bm)).
